@@ -417,6 +417,11 @@ def gen_layered_world(rng, i, two_layer=None, want_files=True, small=False, allo
                     node = {"p": "%s/%s%s" % (d, nm, suf), "t": "l", "to": "/dev/null"}
 
                 nodes.append(node)
+            if rng.chance(0.05) and not d.startswith("$ROOT/trap"):
+                # the drop-in directory itself is a symbolic link to a directory elsewhere (etc/app.conf.d -> ../site/app.d):
+                # the model keeps the logical paths, tree_plan() puts the files behind the link
+                fid += 1
+                nodes.append({"p": d, "t": "d", "via": R + "/store/dir%d" % fid})
             if suf and rng.chance(0.05):
                 # a SUB-DIRECTORY whose name carries the suffix (50-old.conf/): it is looked at like the files next to it -
                 # checks, callback - but it is no file and contributes nothing
@@ -452,10 +457,13 @@ def gen_layered_world(rng, i, two_layer=None, want_files=True, small=False, allo
         # relative names: the run's working directory is $ROOT
         read["rel"] = True
         cfg["cwd"] = "$ROOT"
+        # (relative names are made absolute with realpath(): paths reported back would be the physical ones behind a
+        #  directory link, which the logical model cannot know - directory links stay with absolute names)
+        nodes = [n for n in nodes if not n.get("via")]
         if allow_dotdot and rng.chance(0.15):
             return apply_dotdot({"kind": "layered", "read": read, "nodes": nodes, "cfg": cfg})
     elif allow_dotdot and rng.chance(0.06) and all(l.startswith("$ROOT") for l in layers):
-        return apply_dotdot({"kind": "layered", "read": read, "nodes": nodes, "cfg": cfg})
+        return apply_dotdot({"kind": "layered", "read": read, "nodes": [n for n in nodes if not n.get("via")], "cfg": cfg})
     elif rng.chance(0.3):
         # all names are absolute: the working directory is none of the library's business.  It holds a trap - files
         # with the names a layer would have if a path lost its directory part
@@ -466,8 +474,18 @@ def gen_layered_world(rng, i, two_layer=None, want_files=True, small=False, allo
 
 def tree_plan(nodes):
     out = []
+    via = {n["p"]: n["via"] for n in nodes if n.get("via")}
+    links = []
     for n in nodes:
+        if n.get("via"):
+            out.append({"t": "d", "p": n["via"]})
+            links.append({"t": "l", "p": n["p"], "to": n["via"]})
+            continue
         e = {"t": n["t"], "p": n["p"]}
+        for d_, target in via.items():
+            if n["p"].startswith(d_ + "/"):
+                e["p"] = target + n["p"][len(d_):]       # physically behind the directory link
+                break
         if n["t"] == "f":
             e["c"] = n["c"] if "c" in n else render_plain([tuple(x) for x in n.get("entries", [])], n.get("delim", "="), n.get("pad", ""))
             if "c" not in n and n.get("empty_secs"):
@@ -489,7 +507,7 @@ def tree_plan(nodes):
             if k in n:
                 e[k] = n[k]
         out.append(e)
-    return out
+    return out + links
 
 
 def read_op(read, o=0, cb=None, ep=None, init="null", in_slot=None, faults=None):
